@@ -100,21 +100,25 @@ def readFixedBlock (d : Bytes) (pos : Nat) : Out (Nat × Nat × UInt8 × Nat × 
   let pos := pos + 2
   pure (charset, columnLength, typ, flag, decimal, pos)
 
-/-- `ParseResultField(packet, mariaDBExtendedTypeInfo)` -/
-def parseResultField (p : Packet) (maria : Bool) : Out ColDef := do
-  let d := p.data
-  let n0 ← skipLengthEncodedString d
-  let (strs, pos) ← readStrs d 5 n0
-  let (ext, pos) ← if maria then readExt d pos else pure ([], pos)
-  if d.length - pos < fixedBlockLen then .err
+/-- the part of `ParseResultField` behind the strings and the extended type info: the guard of the fixed block,
+the fixed block, the optional default value -/
+def parseTail (p : Packet) (maria : Bool) (strs : List (Option Bytes)) (ext : Bytes) (pos : Nat) : Out ColDef :=
+  if p.data.length - pos < fixedBlockLen then .err
   else do
-    let (charset, columnLength, typ, flag, decimal, pos) ← readFixedBlock d pos
-    let (dl, dv) ← readDefault d pos
-    pure { changed := false, originType := 0, maria := maria, data := d, header := p.header,
+    let (charset, columnLength, typ, flag, decimal, pos) ← readFixedBlock p.data pos
+    let (dl, dv) ← readDefault p.data pos
+    pure { changed := false, originType := 0, maria := maria, data := p.data, header := p.header,
            schema := (strs[0]?).join, table := (strs[1]?).join, orgTable := (strs[2]?).join,
            name := (strs[3]?).join, orgName := (strs[4]?).join, extInfo := ext,
            charset := charset, columnLength := columnLength, typ := typ.toNat, flag := flag,
            decimal := decimal.toNat, defaultLen := dl, defaultValue := dv }
+
+/-- `ParseResultField(packet, mariaDBExtendedTypeInfo)` -/
+def parseResultField (p : Packet) (maria : Bool) : Out ColDef :=
+  skipLengthEncodedString p.data >>= fun n0 =>
+  readStrs p.data 5 n0 >>= fun sp =>
+  (if maria then readExt p.data sp.2 else pure ([], sp.2)) >>= fun ep =>
+  parseTail p maria sp.1 ep.1 ep.2
 
 /-- the payload `Dump` builds for a changed description -/
 def ColDef.build (f : ColDef) : Bytes :=
